@@ -323,8 +323,9 @@ func runC20(c *Ctx) {
 		}
 		c.Check(FuncKey(lfs)+"::configured-Config-is-used", lfs.Pos(), used && len(vals) > 0, "types.NewChecker receives the Config whose GoVersion was set")
 		// cache key: on every path, unconditionally
-		_, doWrites := hashedFields(do)
-		hashed, whyNot := mustHashed(do, doWrites, "runner.Runner.GoVersion")
+		keyFn, _ := keyFunctions(c, do)
+		_, doWrites := hashedFields(keyFn)
+		hashed, whyNot := mustHashed(keyFn, doWrites, "runner.Runner.GoVersion")
 		c.Check(FuncKey(do)+"::cache-key-includes-GoVersion", do.Pos(), hashed, "the -go value is part of the action's cache key on every path (it is what the type checker gets unless it is \"module\"), so results computed for another target version are not reused: %s", whyNot)
 	})
 
